@@ -35,7 +35,11 @@ func (lsm *LSM) NewIterators(opt *utils.Options) []utils.Iterator {
 	if mem != nil {
 		iter.iters = append(iter.iters, mem.NewIterator(opt))
 	}
-	for _, imm := range immutables {
+	// lsm.immutables is oldest first; the merge iterator lets the earlier
+	// iterator win when two hold the same internal key, so list newest first
+	// (the order GetMemTables uses for point lookups).
+	for i := len(immutables) - 1; i >= 0; i-- {
+		imm := immutables[i]
 		if imm == nil {
 			continue
 		}
